@@ -1,7 +1,8 @@
 (* Properties/C01.v - Request fidelity: the server sees exactly the request the API calls describe.
    Only statements, `exact`, and Print Assumptions.
    Model: Model/Url.v (net/url escaping, parseRequestURL), Model/H1Req.v (request writers). *)
-From ReqV Require Import Lib.Bytes Model.Url Proofs.UrlProofs.
+From ReqV Require Import Lib.Bytes Model.Url Model.HeaderCollect Model.BodyFraming Model.H1Req.
+From ReqV Require Import Proofs.UrlProofs Proofs.BodyFramingProofs Proofs.H1ReqProofs.
 From Coq Require Import Permutation.
 
 (* --- values are data: escaping is invertible and leaves no byte with a meaning in a URL --- *)
@@ -93,6 +94,87 @@ Theorem C01_merge_query_spec : forall cq rq k v,
 Proof. exact merge_query_spec. Qed.
 Print Assumptions C01_merge_query_spec.
 
+(* --- HTTP/1.1: a specification-level reader (request line split at blanks, field lines at the
+   first ':', values without surrounding blanks, body by Content-Length or chunked) reads back from
+   the rendered bytes exactly the method, target, field lines and body - and leaves whatever follows
+   untouched: nothing in a request can start a second one.  [ok_head]: method and target free of
+   blank and CR, field names non-empty and free of ':' and CR, values free of CR. --- *)
+Theorem C01_h1_roundtrip_cl : forall m t ls body cl rest, ok_head m t ls ->
+  field_values "Transfer-Encoding" (map trim_line ls) = [] ->
+  field_values "Content-Length" (map trim_line ls) = [cl] ->
+  parse_dec cl 0 = Some (N.of_nat (length body)) ->
+  observe_h1 (render_head m t ls ++ body ++ rest) =
+    Some (mkView m t (map trim_line ls) body, rest).
+Proof. exact h1_roundtrip_cl. Qed.
+Print Assumptions C01_h1_roundtrip_cl.
+
+Theorem C01_h1_roundtrip_nobody : forall m t ls rest, ok_head m t ls ->
+  field_values "Transfer-Encoding" (map trim_line ls) = [] ->
+  field_values "Content-Length" (map trim_line ls) = [] ->
+  observe_h1 (render_head m t ls ++ rest) = Some (mkView m t (map trim_line ls) [], rest).
+Proof. exact h1_roundtrip_nobody. Qed.
+Print Assumptions C01_h1_roundtrip_nobody.
+
+(* every partition of the body into well-formed chunks (BodyFraming's wf_chunked) *)
+Theorem C01_h1_roundtrip_chunked : forall m t ls cs z zext tb rest, ok_head m t ls ->
+  field_values "Transfer-Encoding" (map trim_line ls) = [bs "chunked"] ->
+  field_values "Content-Length" (map trim_line ls) = [] ->
+  wf_chunked cs z zext tb ->
+  observe_h1 (render_head m t ls ++ render_chunked cs z zext tb ++ rest) =
+    Some (mkView m t (map trim_line ls) (chunks_data cs), rest).
+Proof. exact h1_roundtrip_chunked. Qed.
+Print Assumptions C01_h1_roundtrip_chunked.
+
+(* --- a value that cannot be sent safely makes the call fail --- *)
+(* a request-level header with an invalid name or a value holding a control byte other than TAB:
+   no http.Request reaches any of the three writers *)
+Theorem C01_unsafe_header_rejected : forall a x,
+  In x (a_rhdr a) -> snd x <> [] -> bad_entry x = true ->
+  fst x <> content_type -> fst x <> bs "Cookie" ->
+  forall q, to_creq a <> Sent q.
+Proof. exact unsafe_header_rejected. Qed.
+Print Assumptions C01_unsafe_header_rejected.
+
+Theorem C01_crlf_nul_value_invalid : forall v,
+  In CR v \/ In LF v \/ In x00 v -> valid_field_value v = false.
+Proof. exact crlf_nul_value_invalid. Qed.
+Print Assumptions C01_crlf_nul_value_invalid.
+
+(* HTTP/1.1 writes a head only for a token method, a valid Host and a target without control bytes *)
+Theorem C01_h1_sent_inv : forall q body w, h1_head q body = Sent w ->
+  valid_method (c_method q) = true /\ valid_host_header (c_host q) = true /\
+  existsb is_ctl (c_path q) = false /\
+  w = render_head (c_method q) (c_path q) (h1_field_lines q body).
+Proof. exact h1_sent_inv. Qed.
+Print Assumptions C01_h1_sent_inv.
+
+Theorem C01_unsafe_method_rejected : forall q body w,
+  valid_method (c_method q) = false -> h1_head q body <> Sent w.
+Proof. exact unsafe_method_rejected. Qed.
+Print Assumptions C01_unsafe_method_rejected.
+
+Theorem C01_unsafe_host_rejected : forall q body w,
+  valid_host_header (c_host q) = false -> h1_head q body <> Sent w.
+Proof. exact unsafe_host_rejected. Qed.
+Print Assumptions C01_unsafe_host_rejected.
+
+Theorem C01_ctl_target_rejected : forall q body w,
+  existsb is_ctl (c_path q) = true -> h1_head q body <> Sent w.
+Proof. exact ctl_target_rejected. Qed.
+Print Assumptions C01_ctl_target_rejected.
+
+(* the pinned HTTP/1.1 writer emptied an invalid Host and sent the request *)
+Theorem C01_h1_host_pinned_refuted :
+  exists q w, valid_host_header (c_host q) = false /\ h1_head_pinned q [] = Sent w /\ h1_head q [] = Rejected.
+Proof. exact h1_host_pinned_refuted. Qed.
+
+(* --- HTTP/2 and HTTP/3 emit the same field lines (no order list, no caller-written Cookie header) --- *)
+Theorem C01_cross_protocol_h2_h3 : forall q,
+  order_list (c_hdr q) = [] -> no_cookie_key (c_hdr q) = true ->
+  h3_lines q = h2_lines q.
+Proof. exact cross_protocol_h2_h3. Qed.
+Print Assumptions C01_cross_protocol_h2_h3.
+
 (* non-vacuity: a template with two holes, overlapping client/request keys and hostile values *)
 Example C01_nonvacuous :
   let ts := [TLit (bs "/users/"); THole (bs "id"); TLit (bs "/files/"); THole (bs "name")] in
@@ -106,3 +188,11 @@ Example C01_nonvacuous :
   parse_request_url_pinned (bs "http://h:80/base path") (render_toks ts) rp cp [] [] =
     BOk (bs "http") (bs "h:80") (bs "/base%20path/users/../admin%3Fx=1%23f/files/a%20b/%7Bid%7D").
 Proof. vm_compute. repeat split. Qed.
+
+(* the h1 hypotheses are met by a real rendered request, and the reader returns its parts *)
+Example C01_h1_nonvacuous :
+  let ls := [(bs "Host", bs "h:80"); (bs "Content-Length", bs "5"); (bs "X-A", bs "a: b  ")] in
+  observe_h1 (render_head (bs "POST") (bs "/p%20q?x=1") ls ++ bs "hello" ++ bs "GET /next HTTP/1.1") =
+    Some (mkView (bs "POST") (bs "/p%20q?x=1") [(bs "Host", bs "h:80"); (bs "Content-Length", bs "5"); (bs "X-A", bs "a: b")] (bs "hello"),
+          bs "GET /next HTTP/1.1").
+Proof. vm_compute. reflexivity. Qed.
